@@ -22,7 +22,7 @@ PROPERTY = {
              "equations / different defaults / identical structure), node-template names, generated file and function "
              "names, and optionally the very same template objects (sibling circuit). Up to 9 operations: (re)construct, "
              "get_run_func (backends default/torch/jax/fortran), get_jacobian_func, run (vectorize on/off, in_place True/False, clear True/False, one of two "
-             "file names), update_var (node and edge), clear(), clear_frontend_caches(), each addressed to one model. Oracle: every "
+             "file names), update_var (node and edge), to_yaml + from_yaml (one file name for all models), clear(), clear_frontend_caches(), each addressed to one model. Oracle: every "
              "result observed for a model in the history (y0, argument values by name, vector field at y0, run rows, "
              "Jacobian at y0) must equal the result of the same operation when only that model's own operations are "
              "executed, in the same order, in a FRESH Python interpreter (subprocess), to 1e-12 relative; an operation that "
@@ -91,6 +91,13 @@ class ModelRunner:
             cand = sorted(p for p, kd in self.rm.kind.items() if kd in ("const", "state"))
             path = cand[op["i"] % len(cand)]
             c.update_var(node_vars={path: float(op["val"])})
+            return {}
+        if k == "yaml_roundtrip":
+            # every model uses the same file name: a later model must not be served the earlier model's templates
+            from pyrates import CircuitTemplate
+            os.makedirs("c13_yaml", exist_ok=True)
+            c.to_yaml("c13_yaml/model.yaml")
+            self.circ = CircuitTemplate.from_yaml("c13_yaml/model/net")
             return {}
         if k == "update_edge":
             top = [e for e in self.spec["edges"] if not e.get("scope")]
@@ -333,7 +340,7 @@ def init_strategy():
 def op_strategy(it):
     return st.fixed_dictionaries({
         "op": st.sampled_from(["get_run_func", "get_run_func", "run", "run", "jac", "update_var", "update_edge", "build",
-                               "clear", "clear_frontend_caches"]),
+                               "clear", "clear_frontend_caches", "yaml_roundtrip"]),
         "backend": st.sampled_from(["default"] * 5 + ["torch", "jax", "fortran", "fortran"]),
         "m": st.integers(0, 2), "vectorize": st.booleans(), "in_place": st.booleans(), "clear": st.booleans(),
         "file": st.sampled_from(["pv_gen_a", "pv_gen_a", "pv_gen_b"]), "fname": st.sampled_from(["pv_f", "pv_g"]),
